@@ -21,7 +21,8 @@ RULE = ("A: every sequence of list operations {new, with_capacity, literal (From
         "sequences of 300 operations on 6 handles. B: seeded numbat-language histories (cons, cons_end, tail, head, concat, "
         "take, drop, reverse, element_at, conditionals, user functions, |>, nested lists, struct fields, shadowing, forks), all "
         "live variables compared with a Python model after every input. distinct = canonical (contents, sharing) states "
-        "reached in A + distinct inputs judged in B; a state is non-trivial when at least one list is non-empty")
+        "reached in A, summed over the 16 shards of each configuration (a state reached in several shards counts once per "
+        "shard) + distinct inputs judged in B; a state is non-trivial when at least one list is non-empty")
 EXHAUSTIVE = {"quick": False, "thorough": False}
 FLOOR = {"quick": 20000, "thorough": 200000}
 ASSUMPTIONS = ["pruning: two states with the same canonical form (visible contents up to renaming of the unique element "
@@ -81,9 +82,9 @@ def run_enum(sh, spec):
         sh.inconclusive_case(f"harness exception: listcheck failed: {str(r)[:300]}")
         return
     absorb_stats(sh, r, f"enum_H{spec['handles']}_L{spec['depth']}")
-    # distinct states are disjoint between configurations/shards only approximately; fingerprint by (config, shard, n)
-    for i in range(r["distinct_states"]):
-        sh.distinct.add(hash((spec["handles"], spec["depth"], spec["shard"], i)) & 0xFFFFFFFFFFFF)
+    # canonical states are counted per shard by the explorer (shards partition the sequences, not the states, so the
+    # sum over shards over-counts states reached in several shards; the per-shard numbers are in the counters)
+    sh.extra_distinct += r["distinct_states"]
     for v in r["violations"]:
         sh.violation({"kind": "enum", "handles": v["handles"], "seq": v["seq"], "signature": v["why"][:60]},
                      f"list operations {json.dumps(v['seq'])}: {v['why']}", v.get("state"))
@@ -100,8 +101,7 @@ def run_fuzz(sh, spec):
         sh.inconclusive_case(f"harness exception: listfuzz failed: {str(r)[:300]}")
         return
     absorb_stats(sh, r, "fuzz")
-    for i in range(r["distinct_states"]):
-        sh.distinct.add(hash(("fuzz", spec["seed"], i)) & 0xFFFFFFFFFFFF)
+    sh.extra_distinct += r["distinct_states"]
     for v in r["violations"]:
         sh.violation({"kind": "enum", "handles": v["handles"], "seq": v["seq"], "signature": v["why"][:60]},
                      f"list operations (random sequence, {len(v['seq'])} ops): {v['why']}", v.get("state"))
